@@ -19,6 +19,7 @@ func checkC07(c *Ctx) {
 	c07Hcldec(c)
 	c07Dynblock(c)
 	c07BlockSelection(c)
+	c07ScopePushPop(c)
 	c.NotCovered("that a reported traversal has the right steps; equality of diagnostics under a pruned scope")
 	c.NotCovered("hand-built ASTs whose ObjectConsKeyExpr literal-key condition differs between Value and walkChildNodes")
 }
@@ -1445,4 +1446,69 @@ func isVariablesMap(m ssa.Value) bool {
 		}
 	}
 	return false
+}
+
+// R8: the variables walker pops exactly the scopes it pushed.
+func c07ScopePushPop(c *Ctx) {
+	c.Rule("R8 scope.pushpop: variablesWalker.Enter extends localScopes and variablesWalker.Exit shrinks it for the same dynamic node type, and that type is the one the walkChildNodes methods construct (ChildScope as a value): a scope that is pushed and never popped hides every later reference to the same name in the rest of the expression")
+	enter := c.P.LookupFunc("hclsyntax", "variablesWalker.Enter")
+	exit := c.P.LookupFunc("hclsyntax", "variablesWalker.Exit")
+	if enter == nil || exit == nil {
+		c.CheckerFail("scope.pushpop", "anchor variablesWalker.Enter/Exit does not resolve")
+		return
+	}
+	c.Fn(FuncName(enter))
+	c.Fn(FuncName(exit))
+	// the node type asserted on the way to the store into w.localScopes
+	guardType := func(fn *ssa.Function) (types.Type, token.Pos) {
+		for _, b := range fn.Blocks {
+			for _, ins := range b.Instrs {
+				st, ok := ins.(*ssa.Store)
+				if !ok {
+					continue
+				}
+				fa, ok := st.Addr.(*ssa.FieldAddr)
+				if !ok {
+					continue
+				}
+				if fv := fieldVarOf(fa.X.Type(), fa.Field); fv == nil || fv.Name() != "localScopes" {
+					continue
+				}
+				for d := b; d != nil && d.Idom() != nil; d = d.Idom() {
+					iff, ok := lastIf(d.Idom())
+					if !ok || d.Idom().Succs[0] != d {
+						continue
+					}
+					if ex, ok := iff.Cond.(*ssa.Extract); ok && ex.Index == 1 {
+						if ta, ok := ex.Tuple.(*ssa.TypeAssert); ok {
+							return ta.AssertedType, st.Pos()
+						}
+					}
+				}
+				return nil, st.Pos()
+			}
+		}
+		return nil, token.NoPos
+	}
+	te, pe := guardType(enter)
+	tx, px := guardType(exit)
+	c.Sites += 2
+	if !pe.IsValid() || !px.IsValid() {
+		c.Fail("scope.pushpop", "hclsyntax.variablesWalker:stack", enter.Pos(), "Enter or Exit no longer updates localScopes")
+		return
+	}
+	c.Check(te != nil && tx != nil && types.Identical(te, tx), "scope.pushpop", "hclsyntax.variablesWalker:same-type", px, "push and pop under the same node type",
+		fmt.Sprintf("Enter pushes a scope for nodes of type %v but Exit pops for %v: scopes are never popped (or popped for the wrong node)", te, tx))
+	// the type the walk constructs
+	constructed := false
+	for _, fn := range c.P.pkgFuncs("hclsyntax") {
+		for _, b := range fn.Blocks {
+			for _, ins := range b.Instrs {
+				if mi, ok := ins.(*ssa.MakeInterface); ok && te != nil && types.Identical(mi.X.Type(), te) {
+					constructed = true
+				}
+			}
+		}
+	}
+	c.Check(constructed, "scope.pushpop", "hclsyntax.variablesWalker:constructed", pe, "the pushed node type is the one walkChildNodes constructs", fmt.Sprintf("no walkChildNodes method constructs a node of the type %v that Enter pushes a scope for", te))
 }
